@@ -171,3 +171,15 @@ func c13FirstDiff(a, b []byte) int {
 	}
 	return n
 }
+
+func c13Unwrap(pc net.PacketConn) (*obfsPacketConn, *salamanderObfuscator, string) {
+	c, ok := pc.(*obfsPacketConn)
+	if !ok {
+		return nil, nil, fmt.Sprintf("WrapPacketConnSalamander returned %T, expected *obfsPacketConn", pc)
+	}
+	ob, ok := c.Obfs.(*salamanderObfuscator)
+	if !ok {
+		return nil, nil, fmt.Sprintf("wrapped socket uses %T, expected *salamanderObfuscator", c.Obfs)
+	}
+	return c, ob, ""
+}
